@@ -48,6 +48,9 @@ def units(tier, seed):
     u = [dict(kind="box", sa=a, sb=b, tier=tier, base=k, ya=y) for a in range(ns) for b in range(ns) for k in range(2) for y in range(len(yaws_a(tier)))]
     u += [dict(kind="roi", lo=i, hi=i + 9) for i in range(0, 81, 9)]
     u.append(dict(kind="neartie"))
+    for b in range(0, 24, 6):
+        u.append(dict(kind="tilted_ego", lo=b, hi=b + 6))
+    u.append(dict(kind="scale"))
     return u
 
 
@@ -76,10 +79,27 @@ def _place(kind, a, sb, yb):
     return ax + dx, ay + dy, yb, sb
 
 
+TILT_EGOS = [(40.0, -25.0, 30.0, 0.7, 0.05, -0.03), (-15.0, 60.0, -12.0, -2.0, -0.08, 0.04), (5.0, 5.0, 55.0, 3.0, 0.02, 0.09)]
 NEARTIE_EPS = [1e-5, -1e-5, 2e-5, -2e-5, 6e-5, -6e-5, 3e-4, -3e-4]
 
 
 def run_unit(unit, acc):
+    if unit["kind"] == "tilted_ego":
+        # map-frame boxes on level ground seen from an ego that stands 30 m higher / 12 m lower on a slope (pitch, roll): the nearest
+        # side of the ground truth is still the one nearest in the ego's bird's-eye view
+        for bearing in range(unit["lo"], unit["hi"]):
+            for dist in (9.0, 17.0, 33.0):
+                for gyaw in (0.0, 0.5, 1.1, 1.9, 2.6):
+                    for ei in range(len(TILT_EGOS)):
+                        check_case(dict(kind="tilted_ego", bearing=bearing, dist=dist, gyaw=gyaw, ego=ei), acc)
+        return
+    if unit["kind"] == "scale":
+        # the same pair of boxes at 1, 1e-3, 1e-4 and 1e3 times the size (millimetre-sized and kilometre-sized boxes): IoU is scale free
+        for pl in ("identical", "overlap1", "overlap2", "nested"):
+            for yb in (0.0, 0.4, 1.2):
+                for sc in (1e-3, 1e-4, 1e3):
+                    check_case(dict(kind="scale", placement=pl, yb=yb, scale=sc), acc)
+        return
     if unit["kind"] == "neartie":
         # ground truth seen diagonally: its 2nd and 3rd nearest corners are 3.5e-6 .. 1e-4 m apart in ego distance (not tied: the
         # nearest side is well defined), and the estimate deviates differently on the two candidate sides
@@ -127,6 +147,57 @@ def check_case(case, acc):
     def bad(sig, msg):
         acc.violation(sig, msg + " | " + str(case), case)
 
+    if case["kind"] == "tilted_ego":
+        ego = TILT_EGOS[case["ego"]]
+        E = np.array(geom.pose_matrix(*ego))
+        th = case["bearing"] * 2 * math.pi / 24 + 0.13
+        gx, gy = ego[0] + case["dist"] * math.cos(th), ego[1] + case["dist"] * math.sin(th)
+        gsz, esz = (2.0, 4.5, 1.5), (1.8, 5.6, 1.5)
+        gyaw = case["gyaw"]
+        ex, ey, eyaw = gx + 0.5 * math.cos(gyaw) - 0.2 * math.sin(gyaw), gy + 0.5 * math.sin(gyaw) + 0.2 * math.cos(gyaw), gyaw + 0.06
+        g = G.mk3d(dict(x=gx, y=gy, z=0.0, yaw=gyaw, size=list(gsz), uuid="g", label="CAR"), "map", (0.0, 0.0, 0.0))
+        e = G.mk3d(dict(x=ex, y=ey, z=0.0, yaw=eyaw, size=list(esz), uuid="e", label="CAR", score=0.9), "map", (0.0, 0.0, 0.0))
+        tf = G.TransformDict(G.ego2map_matrix(ego)) if hasattr(G, "TransformDict") else None
+        if tf is None:
+            from perception_eval.common.transform import TransformDict as _TD
+            tf = _TD(G.ego2map_matrix(ego))
+        acc.exec()
+        pd = PlaneDistanceMatching(e, g, transforms=tf).value
+        acc.compared()
+        cg, ce = geom.box_corners(gx, gy, gyaw, gsz[0], gsz[1]), geom.box_corners(ex, ey, eyaw, esz[0], esz[1])
+        Einv = np.linalg.inv(E)
+        bev = [math.hypot(*(Einv @ np.array([c[0], c[1], 0.0, 1.0]))[:2]) for c in cg]
+        order = sorted(range(4), key=lambda k_: bev[k_])
+        margin = bev[order[2]] - bev[order[1]]
+        acc.state(("tilted_ego", case["ego"], case["bearing"], case["dist"], gyaw, margin > 1e-3), nontrivial=margin > 1e-3)
+        if margin <= 1e-3:
+            acc.skip("tie:corner-ranking")
+            return
+        a, b = order[0], order[1]
+        want = math.sqrt(0.5 * ((ce[a][0] - cg[a][0]) ** 2 + (ce[a][1] - cg[a][1]) ** 2 + (ce[b][0] - cg[b][0]) ** 2 + (ce[b][1] - cg[b][1]) ** 2))
+        acc.outcome(("tilted_ego", round(want, 2)))
+        if abs(pd - want) > 1e-6:
+            bad("plane-distance:tilted-ego", "map-frame pair seen from ego %s: plane distance %r, RMS over the two ground-truth corners nearest in the ego's bird's-eye view %r "
+                "(corner distances %s)" % (ego, pd, want, [round(v, 3) for v in bev]))
+        return
+    if case["kind"] == "scale":
+        sc = case["scale"]
+        sa, sb = (2.0, 4.0, 1.5), (1.6, 3.0, 1.2)
+        a0 = (8.0, 0.5, 0.3, sa)
+        bx, by, byaw, sbb = _place(case["placement"], a0, sb, case["yb"])
+        vals = []
+        for k_ in (1.0, sc):
+            ga = dict(x=a0[0] * k_, y=a0[1] * k_, z=0.4 * k_, yaw=a0[2], size=[v * k_ for v in sa], uuid="g", label="CAR")
+            eb = dict(x=bx * k_, y=by * k_, z=0.4 * k_, yaw=byaw, size=[v * k_ for v in sbb], uuid="e", label="CAR", score=0.9)
+            g, e = G.mk3d(ga), G.mk3d(eb)
+            acc.exec(2)
+            vals.append((IOU2dMatching(e, g).value, IOU3dMatching(e, g).value))
+        acc.compared()
+        acc.state(("scale", case["placement"], case["yb"], sc), nontrivial=0 < vals[0][0] < 1)
+        acc.outcome(("scale", round(vals[0][0], 3)))
+        if abs(vals[0][0] - vals[1][0]) > 1e-6 or abs(vals[0][1] - vals[1][1]) > 1e-6:
+            bad("iou:scale-dependence", "IoU (BEV, 3D) = %s at full size and %s with every length multiplied by %g" % (vals[0], vals[1], sc))
+        return
     if case["kind"] == "neartie":
         eps, phi = case["eps"], case["phi"]
         gsz, esz, shift = ((2.0, 4.0, 1.5), (2.0, 6.0, 1.5), 1.0) if case["shape"] == 0 else ((1.0, 3.0, 1.5), (1.4, 3.0, 1.5), 0.0)
